@@ -19,9 +19,15 @@ with the slots embit changed (count = number of distinct slots of the trace, cha
 C02Y (Props/C02Y.lean): the `SigLaws` hypothesis of C02X is discharged for the environment the driver runs (`opsOf`:
 C07 signers + C09/C10 key models over one abstract curve, bridged between the two curve records) relative to the curve
 laws; `sign.verify` decides the theorem's conclusion (standards' verifiers, consensus digest) for every write of the
-model's trace over the executable secp256k1."""
+model's trace over the executable secp256k1.
+
+C02V (Props/C02V.lean, audit2 B-1 / B-2): `sign.viewbytes` runs the BYTE-LEVEL model of `PSBTView.sign_with`
+(Model/ViewSignBytes.lean: scopes read from the stream at offsets in the view's compress mode, streaming digests) on the
+raw buffer with the view opened at a non-zero offset; it is proved equal to the in-memory model on every accepted PSBT, and
+the two Lean models of `PSBT.sighash` (C01X's and C02X's) are proved equal on everything `sign_with` passes."""
 import io
 import json
+import zlib
 from collections import Counter, OrderedDict
 
 from core import Check, hx, run_driver
@@ -36,9 +42,11 @@ from embit.psbt import PSBT
 from embit.psbtview import PSBTView
 
 PROP = "C02"
-MODS = ["EmbitModel.Props.C02", "EmbitModel.Props.C02X", "EmbitModel.Props.C02Y", "EmbitModel.Props.C02Z"]
+MODS = ["EmbitModel.Props.C02", "EmbitModel.Props.C02X", "EmbitModel.Props.C02Y", "EmbitModel.Props.C02Z", "EmbitModel.Props.C02V"]
 H = gw.H
 AUTH = [None, 0, 1, 2, 3, 0x81, 0x82, 0x83]
+# sign.viewbytes: Props/C02V.viewbytes_eq_memory proves the byte-level model equal to the in-memory model on every accepted PSBT
+VIEWBYTES_PROVEN = True
 
 
 def norm(f, taproot):
@@ -260,6 +268,35 @@ def view_compare(c, b, signer, authorised, rec0, result):
              canon=canon_stream)
 
 
+def viewbytes_compare(c, b, signer, authorised, rec0):
+    """B-1: the BYTE-LEVEL model of PSBTView.sign_with (Model/ViewSignBytes.lean, op sign.viewbytes): the view is opened on a
+    stream that holds the PSBT at an offset (junk before and behind), in one of the three compress modes; every scope is
+    read from the bytes and the digests are the view's streaming digests. Compared: whole signature stream + count.
+    Offset and mode are derived from the bytes (not from the rng, so the sequence of generated cases is unchanged)."""
+    st = signer_tok(signer)
+    if st is None:
+        return
+    h = zlib.crc32(b)
+    if c.tier == "thorough" and (h >> 8) & 1:
+        return              # thorough tier: every second case (time budget); quick tier: every case
+    off = (0, 3, 17)[h % 3]
+    vc = (h // 3) % 3
+    buf = bytes((h >> (k % 24)) & 0xff for k in range(off)) + b + bytes([(h >> 5) & 0xff] * ((h // 9) % 3))
+    a = "None" if authorised is None else str(authorised)
+    try:
+        s = io.BytesIO(buf)
+        s.seek(off)
+        v = PSBTView.view(s, compress=vc)
+        sigs = io.BytesIO()
+        n = v.sign_with(signer, sigs, sighash=authorised)
+        impl = canon_stream("ok %d %s" % (n, hx(sigs.getvalue())))
+    except Exception:
+        impl = "none"
+    c.tally("viewbytes:off=%d,mode=%d" % (off, vc))
+    c.expect("sign.viewbytes %s %s %d %d %s" % (st, a, off, vc, hx(buf)), impl,
+             dict(rec0, op="sign.viewbytes", offset=off, mode=vc), proven=VIEWBYTES_PROVEN, op="sign.viewbytes", canon=canon_stream)
+
+
 def scope_pairs_of(scope, version):
     s = io.BytesIO()
     scope.write_to(s, version=version)
@@ -297,6 +334,7 @@ def check_case(c, g, signer_name, signer, pred, authorised, use_view):
             sigs = io.BytesIO()
             count = v.sign_with(signer, sigs, sighash=authorised)
             view_compare(c, b, signer, authorised, rec0, (count, sigs.getvalue()))
+            viewbytes_compare(c, b, signer, authorised, rec0)
             sc = gen_psbt.split_scopes(b"psbt\xff" + b"\x00" + sigs.getvalue())[1:] if sigs.getvalue() else []
             added = [Counter(x) for x in sc] + [Counter() for _ in range(len(p.inputs) - len(sc))]
             # the stream carries every partial sig of the scope after signing; keep only the new ones
@@ -320,6 +358,7 @@ def check_case(c, g, signer_name, signer, pred, authorised, use_view):
             model_compare(c, b, signer, authorised, rec0, None)
         else:
             view_compare(c, b, signer, authorised, rec0, None)
+            viewbytes_compare(c, b, signer, authorised, rec0)
         # a raise is acceptable only when a digest that has to be computed does not exist:
         # BIP341 SIGHASH_SINGLE on an input without matching output
         for i, d in enumerate(g["ins"]):
@@ -575,6 +614,7 @@ def adversarial_case(c, rng):
         except Exception:
             pass
         view_compare(c, b, signer, authorised, rec0, vres)
+        viewbytes_compare(c, b, signer, authorised, rec0)
         try:
             count = p.sign_with(signer, sighash=authorised)
         except Exception as e:
@@ -688,6 +728,9 @@ def run(tier, seed):
               "p2sh multisig, p2wsh miniscript, p2tr key path, p2tr script path (1-2 leaves); per-input sighash_type absent or any "
               "of the 8 flags; signer in {HD root of A, of cosigner B, of a foreign wallet, WIF key, descriptor with origin, "
               "descriptor key}; authorised flag in {None, 0, 1, 2, 3, 0x81, 0x82, 0x83}; in memory or through PSBTView. Distinct by content. "
+              "Every PSBTView case is also run through the BYTE-LEVEL model of PSBTView.sign_with (sign.viewbytes: view opened at stream "
+              "offset 0 / 3 / 17 with junk before and behind the PSBT, compress mode 0 / 1 / 2, both derived from the bytes; whole signature "
+              "stream + count compared). "
               "Adversarial variants (in memory AND through PSBTView, compared with each other and with the Lean models of both): existing "
               "partial / taproot signatures and final witnesses, signing a result again, derivation entries with the other key parity, "
               "duplicated as taproot + ordinary entry, wrong last index, foreign fingerprint, missing utxo; signers: uncompressed key, "
@@ -695,6 +738,8 @@ def run(tier, seed):
               "match, descriptor key without origin, key wrapped with origin.")
     c.assumptions = ["unforgeability is not claimed: 'valid' means the independent Lean verifier accepts the signature for the consensus digest",
                      "wallet keys and scripts are built with embit's key classes as test data; script codes and expected sets are built here",
+                     "sign.viewbytes: proven=True because Props/C02V.viewbytes_eq_memory_* proves the byte-level model equal to the in-memory model "
+                     "on every accepted PSBT (outside the C05X regions); a difference there would mean the stream signer and PSBT.sign_with disagree",
                      "sign.run / sign.view instantiate the proved model with the driver's executable secp256k1, RFC 6979 + grinding, BIP340, "
                      "BIP32 and taproot-tweak models of C07/C09/C10 (each tied to embit by its own property's check)",
                      "signers are private key objects of the modelled kinds (ec.PrivateKey, private bip32.HDKey, descriptor Key, Descriptor)",
